@@ -6,6 +6,7 @@ import (
 	"encoding/binary"
 	"encoding/hex"
 	"fmt"
+	"reflect"
 	"strings"
 	"testing"
 	"time"
@@ -575,6 +576,61 @@ type guidFields struct {
 	E uint64 `json:"e48"`
 }
 
+// sameGUID compares the five fields that make up a GUID. The struct values are never compared as a
+// whole: what else an implementation keeps in them is its own business.
+func sameGUID(a, b *guid.GUID) bool {
+	return a.A == b.A && a.B == b.B && a.C == b.C && a.D == b.D && a.E == b.E
+}
+
+// exportedDiff compares two values of one type by their exported fields, recursively (embedded
+// structs, arrays, slices and pointers are followed), and returns the path of the first one that
+// differs, "" if none does. Unexported fields are the implementation's bookkeeping and are skipped.
+func exportedDiff(a, b reflect.Value, path string) string {
+	if a.IsValid() != b.IsValid() || (a.IsValid() && a.Type() != b.Type()) {
+		return path + " (type)"
+	}
+	if !a.IsValid() {
+		return ""
+	}
+	switch a.Kind() {
+	case reflect.Pointer, reflect.Interface:
+		if a.IsNil() || b.IsNil() {
+			if a.IsNil() != b.IsNil() {
+				return path + " (nil)"
+			}
+			return ""
+		}
+		return exportedDiff(a.Elem(), b.Elem(), path)
+	case reflect.Struct:
+		for i := 0; i < a.NumField(); i++ {
+			f := a.Type().Field(i)
+			if !f.IsExported() {
+				continue
+			}
+			if d := exportedDiff(a.Field(i), b.Field(i), strings.TrimPrefix(path+"."+f.Name, ".")); d != "" {
+				return d
+			}
+		}
+		return ""
+	case reflect.Slice, reflect.Array:
+		if a.Len() != b.Len() {
+			return path + " (length)"
+		}
+		for i := 0; i < a.Len(); i++ {
+			if d := exportedDiff(a.Index(i), b.Index(i), fmt.Sprintf("%s[%d]", path, i)); d != "" {
+				return d
+			}
+		}
+		return ""
+	case reflect.Map, reflect.Func, reflect.Chan, reflect.UnsafePointer:
+		return "" // none in the types compared here
+	}
+	if !a.Equal(b) {
+		return path
+	}
+	return ""
+}
+
 func checkGUIDFields(c guidFields) []vf.Finding {
 	var fs []vf.Finding
 	g := &guid.GUID{A: c.A, B: c.B, C: c.C, D: c.D, E: c.E}
@@ -585,13 +641,13 @@ func checkGUIDFields(c guidFields) []vf.Finding {
 			fs = append(fs, vf.F("guid.FromString("+fmtNames[i]+")", "own-text-rejected", "%q: %v", txt, err))
 			continue
 		}
-		if *p != *g {
+		if !sameGUID(p, g) {
 			fs = append(fs, vf.F("guid.FromString("+fmtNames[i]+")", "fields-not-preserved", "%+v -> %q -> %+v", *g, txt, *p))
 		}
 	}
 	r := &guid.GUID{}
 	r.FromRawBytes(g.ToBytes())
-	if *r != *g {
+	if !sameGUID(r, g) {
 		fs = append(fs, vf.F("GUID.FromRawBytes", "fields-not-preserved", "%+v -> %x -> %+v", *g, g.ToBytes(), *r))
 	}
 	return fs
@@ -623,7 +679,7 @@ func checkReuse(c reuseCase) []vf.Finding {
 	fresh.FromRawBytes(append([]byte{}, x...))
 	used.FromRawBytes(append([]byte{}, y...))
 	used.FromRawBytes(append([]byte{}, x...))
-	if *fresh != *used || fresh.ToFormatD() != used.ToFormatD() || !bytes.Equal(fresh.ToBytes(), used.ToBytes()) {
+	if !sameGUID(fresh, used) || fresh.ToFormatD() != used.ToFormatD() || !bytes.Equal(fresh.ToBytes(), used.ToBytes()) {
 		fs = append(fs, vf.F("GUID.FromRawBytes", "result-depends-on-previous-receiver-value", "x %x after %x: %+v (%s) want %+v (%s)", x, y, *used, used.ToFormatD(), *fresh, fresh.ToFormatD()))
 	}
 	for _, v := range []struct {
@@ -654,8 +710,8 @@ func checkReuse(c reuseCase) []vf.Finding {
 			}
 			fb, _ := f.Marshal()
 			ub, _ := u.Marshal()
-			if !bytes.Equal(fb, ub) || f.String() != u.String() || fmt.Sprintf("%+v", f) != fmt.Sprintf("%+v", u) {
-				fs = append(fs, vf.F(v.name+"."+via, "result-depends-on-previous-receiver-value", "x %x after %x: %+v want %+v", xv, yv, u, f))
+			if field := exportedDiff(reflect.ValueOf(u), reflect.ValueOf(f), ""); !bytes.Equal(fb, ub) || f.String() != u.String() || field != "" {
+				fs = append(fs, vf.F(v.name+"."+via, "result-depends-on-previous-receiver-value", "x %x after %x: %s (%x) want %s (%x); first exported field that differs: %q", xv, yv, u, ub, f, fb, field))
 			}
 		}
 	}
